@@ -33,5 +33,6 @@ TailVerbatim == P05(Def, argv, Obs, Top)
 ChainAndGlobals == P09(Def, Obs, Top)
 Rejections == KindContract(Obs) /\ (Obs.outcome = "Err" => Justified(Def, Obs, Top))
 
-Emit == EmitOn => PrintT(<<"REPLAY", ToJson([d |-> d, argv |-> argv, obs |-> Obs])>>)
+Emit == EmitOn => PrintT(<<"REPLAY", ToJson([d |-> d, argv |-> argv, obs |-> Obs,
+                                               try |-> IF Obs.outcome = "Err" THEN ExpectedTry(Def, Top, Obs.kind) ELSE <<>>])>>)
 =============================================================================
